@@ -83,6 +83,7 @@ type analyzer struct {
 	pkgName  string
 	accesses map[access]bool
 	calls    map[callrec]bool
+	held     map[callrec]bool // calls out of the package made with the mutex held
 	cur      string
 	nlit     int
 	pending  []pendingLit
@@ -232,6 +233,30 @@ func (a *analyzer) expr(e ast.Node, l lk) {
 			}
 			if fn, ok := obj.(*types.Func); ok && fn.Pkg() != nil && fn.Pkg().Name() == a.pkgName {
 				a.calls[callrec{a.cur, funcName(fn), l}] = true
+			} else if (l == lkL || l == lkM) && !strings.Contains(a.cur, "$defer") {
+				// anything else called while the mutex is (or may be) held: methods of other
+				// packages' values and interfaces, function values, the channel builtin close.
+				// Conversions, the allocation/length builtins and sync/atomic are not calls that
+				// can block or re-enter.
+				name := exprString(x.Fun)
+				skip := false
+				if _, isType := obj.(*types.TypeName); isType {
+					skip = true
+				}
+				if b, isB := obj.(*types.Builtin); isB && b.Name() != "close" {
+					skip = true
+				}
+				if obj == nil {
+					if tv, ok := a.info.Types[x.Fun]; ok && tv.IsType() {
+						skip = true
+					}
+				}
+				if strings.HasPrefix(name, "atomic.") || a.isMu(x) || name == "verifNote" || name == "verifGate" {
+					skip = true // (the two hooks are no-ops without the build tag)
+				}
+				if !skip {
+					a.held[callrec{a.cur, name, l}] = true
+				}
 			}
 			return true
 		case *ast.SelectorExpr:
@@ -242,6 +267,26 @@ func (a *analyzer) expr(e ast.Node, l lk) {
 		}
 		return true
 	})
+}
+
+func (a *analyzer) isMu(c *ast.CallExpr) bool { _, ok := a.isMuCall(c); return ok }
+
+func exprString(e ast.Expr) string {
+	switch x := e.(type) {
+	case *ast.Ident:
+		return x.Name
+	case *ast.SelectorExpr:
+		return exprString(x.X) + "." + x.Sel.Name
+	case *ast.ParenExpr:
+		return exprString(x.X)
+	case *ast.IndexExpr:
+		return exprString(x.X) + "[]"
+	case *ast.CallExpr:
+		return exprString(x.Fun) + "()"
+	case *ast.FuncLit:
+		return "func-literal"
+	}
+	return "?"
 }
 
 func funcName(fn *types.Func) string {
@@ -660,7 +705,7 @@ func analyzePkg(dir, pkgName string, tracked []string, muOwner string) (*pkgResu
 		tr[t] = true
 	}
 	a := &analyzer{info: info, tracked: tr, pkgName: pkgName,
-		syncFld: map[string]bool{}, muOwner: muOwner, accesses: map[access]bool{}, calls: map[callrec]bool{}}
+		syncFld: map[string]bool{}, muOwner: muOwner, accesses: map[access]bool{}, calls: map[callrec]bool{}, held: map[callrec]bool{}}
 	// fields of sync types are internally synchronised
 	fieldsOf := map[string][]string{}
 	for _, f := range files {
@@ -897,6 +942,24 @@ func writeAccess(repo, out string) error {
 			sep = ""
 		}
 		fmt.Fprintf(&b, "  (%q, %q, %q)%s\n", x.callee, x.caller, x.lock.String(), sep)
+	}
+	b.WriteString("]\n\n/-- calls out of package res (methods of other packages' values and of interfaces, function values,\nthe builtin `close`) made while the service mutex is held (L) or held on some paths (M): (function, callee as written, state) -/\ndef heldCalls : List (String × String × String) := [\n")
+	var hc []callrec
+	for k := range a.held {
+		hc = append(hc, k)
+	}
+	sort.Slice(hc, func(i, j int) bool {
+		if hc[i].caller != hc[j].caller {
+			return hc[i].caller < hc[j].caller
+		}
+		return hc[i].callee < hc[j].callee
+	})
+	for i, x := range hc {
+		sep := ","
+		if i == len(hc)-1 {
+			sep = ""
+		}
+		fmt.Fprintf(&b, "  (%q, %q, %q)%s\n", x.caller, x.callee, x.lock.String(), sep)
 	}
 	b.WriteString("]\n\n/-- the same table for the other packages C16 names: the loggers (mutex of `MemLogger`) and the\nBadgerDB store (no mutex of its own: per-id key locks and a single-consumer task queue) -/\ndef extAccesses : List (String × String × String × String × String) := [\n")
 	for i, x := range extAcc {
